@@ -202,6 +202,32 @@ package value
 //@   ensures [definition] result == opGe(cmpOf(p1, p2, datetimeFormats, location))
 //@   modifies nothing
 
+// ANY / ALL / IN and row-value comparison go through CompareRowValues. On rows of one value it must agree with the scalar
+// operator (that is what makes "x < ANY (...)" equal its documented expansion into ORs of "x < v"); on longer rows the
+// first pair that decides an ordering operator decides it as the scalar operator would.
+//@ lemma cmp_range: forallv(a, Primary, forallv(b, Primary, forallv(f, []string, forallv(l, *time.Location,
+//@     IsEqual <= cmpOf(a, b, f, l) && cmpOf(a, b, f, l) <= IsIncommensurable))))
+//@   property C06
+//@   reveal cmpOf
+//@ spec def rowOp(op string, c ComparisonResult) ternary.Value =
+//@   ite(op == "=", opEq(c), ite(op == "<>" || op == "!=", opNe(c), ite(op == "<", opLt(c), ite(op == ">", opGt(c), ite(op == "<=", opLe(c), opGe(c))))))
+//@ spec def isRowOp(op string) bool = op == "=" || op == "<>" || op == "!=" || op == "<" || op == ">" || op == "<=" || op == ">="
+//@ func CompareRowValues
+//@   property C06
+//@   safety
+//@   ensures [null-row-is-unknown] rowValue1 == nil || rowValue2 == nil ==> result0 == ternary.UNKNOWN && result1 == nil
+//@   ensures [length-mismatch-is-an-error] rowValue1 != nil && rowValue2 != nil && len(rowValue1) != len(rowValue2) ==> result1 != nil
+//@   ensures [single-value-rows-compare-like-scalars] rowValue1 != nil && rowValue2 != nil && len(rowValue1) == 1 && len(rowValue2) == 1 && isRowOp(operator) ==>
+//@       result1 == nil && result0 == rowOp(operator, cmpOf(rowValue1[0], rowValue2[0], datetimeFormats, location))
+//@   ensures [first-pair-decides-an-ordering-when-it-is-not-a-tie] rowValue1 != nil && rowValue2 != nil && len(rowValue1) == len(rowValue2) && len(rowValue1) >= 1 &&
+//@       (operator == "<" || operator == ">" || operator == "<=" || operator == ">=") && cmpOf(rowValue1[0], rowValue2[0], datetimeFormats, location) != IsEqual ==>
+//@       result1 == nil && result0 == rowOp(operator, cmpOf(rowValue1[0], rowValue2[0], datetimeFormats, location))
+//@   loop 1 invariant 0 <= i && i <= len(rowValue1) && len(rowValue1) == len(rowValue2) && rowValue1 != nil && rowValue2 != nil
+//@   loop 1 invariant i >= 1 && (operator == "<" || operator == ">" || operator == "<=" || operator == ">=") ==> cmpOf(rowValue1[0], rowValue2[0], datetimeFormats, location) == IsEqual
+//@   loop 1 invariant i >= 1 && (operator == "=" || operator == "<>" || operator == "!=") ==> cmpOf(rowValue1[0], rowValue2[0], datetimeFormats, location) == IsEqual || cmpOf(rowValue1[0], rowValue2[0], datetimeFormats, location) == IsBoolEqual || (cmpOf(rowValue1[0], rowValue2[0], datetimeFormats, location) == IsIncommensurable && len(rowValue1) > 1)
+//@   loop 1 invariant len(rowValue1) == 1 && isRowOp(operator) ==> !unknown
+//@   modifies nothing
+
 // orders assumed of the library: Go's < on strings and time.Time's Before/Equal are strict total orders
 //@ axiom string_order: forallv(x, string, forallv(y, string, !(x < y && y < x) && (x == y || x < y || y < x) && (x == y ==> !(x < y))))
 //@ axiom time_order: forallv(x, time.Time, forallv(y, time.Time, (x.Equal(y) ==> y.Equal(x)) && !(x.Before(y) && y.Before(x)) &&
